@@ -37,7 +37,8 @@ def base_modules():
     m.datacount = True
     # debug names (used with -g): duplicates, and duplicates that are also the export name of one of the two functions (function 2 is exported
     # as e1, function 5 as e4): functions with ambiguous debug names must end up with distinct symbols
-    m.names = {0: 'host_mark', 1: 'e1', 2: 'e1', 3: 'inc', 4: 'inc', 5: 'e4', 6: 'e4'}
+    # ... and the non-exported start function has a demangled C++ name (quotes, backslash, spaces, parentheses: not usable as a symbol)
+    m.names = {0: 'host_mark', 1: 'e1', 2: 'e1', 3: 'inc', 4: 'inc', 5: 'load_add', 6: 'std::start<"x\\y">(int) const'}
     calls = {'e0': [(5,)], 'e1': [(7,)], 'e2': [(0xffffffff,)], 'e3': [(64,), (66,), (0,), (18,), (40,), (76,), (200,)], 'e4': [(3,), (41,)]}
     out.append(('B1', m, calls, [('env', 'mark', 'i', 'i')]))
     # B2: no memory, table + call_indirect, no name section
